@@ -273,7 +273,7 @@ def scen_laser_peak(env, cfg):
 def configs(tier):
     q = tier == 'quick'
     out = []
-    N = 2 if q else 3
+    N = 2 if q else 4
     for pol in (1, 2):
         for noise in (False, True):
             for dk in ('scalar', 'list', 'ndarray', 'es'):
